@@ -3,7 +3,26 @@
 import json, os, glob
 D='/verif/design'
 def rd(n): return open(os.path.join(D,n)).read()
-out=[rd('A_head.md'), rd('A_props.md')]
+import re, collections
+cnt=collections.defaultdict(lambda:[0,0])
+for root,_,files in os.walk('/verif/harness'):
+    for fn in files:
+        if fn.endswith('.go'):
+            src=open(os.path.join(root,fn)).read()
+            for m in re.finditer(r'((?:^//.*\n)+)func VerifH_(C\d\d)_\w+\(\)', src, re.M):
+                th = 'verif:tier thorough' in m.group(1)
+                cnt[m.group(2)][1 if th else 0]+=1
+props=rd('A_props.md')
+for pid,(q,t) in cnt.items():
+    props=props.replace('{{'+pid+'}}', f"{q} + {t}")
+total=sum(q+t for q,t in cnt.values())
+import subprocess
+nfix=len([l for l in subprocess.check_output(['git','-C','/repo','log','--format=%s']).decode().splitlines() if l.startswith('fix:')])
+kk=json.load(open('/verif/known_findings.json'))
+nknown=len({(x['property'],x['what']) for x in kk['findings']})
+nseed=len(glob.glob('/verif/seeded/*/meta.json'))
+head=rd('A_head.md').replace('{{NOBL}}',str(total)).replace('{{NFIX}}',str(nfix)).replace('{{NKNOWN}}',str(nknown)).replace('{{NKNOWNIDS}}',str(len(kk['findings']))).replace('{{NSEED}}',str(nseed))
+out=[head, props]
 if os.path.exists(os.path.join(D,'A_notes.md')): out.append(rd('A_notes.md'))
 # findings
 k=json.load(open('/verif/known_findings.json'))
